@@ -15,6 +15,10 @@ use serde::{Deserialize, Serialize};
 pub struct Case {
     pub name: String,
     pub ops: Vec<FormOp>,
+    /// "header": for block artefacts, apply the mutations inside the header item only (so that every era's
+    /// header — also the rare epoch-boundary one — gets re-encodings of its own fields, not of its transactions)
+    #[serde(default)]
+    pub focus: Option<String>,
 }
 
 fn era_class(tx: &MultiEraTx) -> &'static str {
@@ -177,7 +181,20 @@ fn check(c: &Case, obs: &mut Obs) -> Result<(), Fail> {
         obs.discard();
         return Ok(());
     };
-    let Some((bytes, applied)) = pool::mutate_bytes(&entry.bytes, &c.ops, &pool::WEIGHTED) else {
+    let focused = c.focus.as_deref() == Some("header") && entry.kind == "block";
+    let mutated_pair = if focused {
+        // [era_tag, [header, ...]]: mutate the header subtree only, splice it back
+        let Ok(mut tree) = cborx::read(&entry.bytes) else { pv_fail!("harness:cborx-cannot-read-artefact", "{} is not one CBOR item", c.name) };
+        let applied = match tree.as_array_mut().and_then(|w| w.get_mut(1)).and_then(|b| b.as_array_mut()).and_then(|b| b.get_mut(0)) {
+            Some(header) => pool::apply_ops(header, &c.ops, &pool::WEIGHTED),
+            None => vec![],
+        };
+        obs.class("focus:header");
+        Some((cborx::write(&tree), applied))
+    } else {
+        pool::mutate_bytes(&entry.bytes, &c.ops, &pool::WEIGHTED)
+    };
+    let Some((bytes, applied)) = mutated_pair else {
         pv_fail!("harness:cborx-cannot-read-artefact", "{} is not one CBOR item", c.name)
     };
     let mutated = bytes != entry.bytes;
@@ -265,7 +282,7 @@ pub fn run(s: &Session) {
     let names = p.names(&["block", "tx", "header"]);
     s.note("artefacts", serde_json::json!(names.len()));
     // every artefact unmutated (complete corpus pass)
-    let plain: Vec<Case> = names.iter().map(|n| Case { name: n.clone(), ops: vec![] }).collect();
+    let plain: Vec<Case> = names.iter().map(|n| Case { name: n.clone(), ops: vec![], focus: None }).collect();
     s.foreach("corpus-unmutated", plain, false, check);
     // mutants: test_data artefacts get the bulk of the budget, chunk blocks a smaller share
     let td: Vec<String> = pool::pool(false).names(&["block", "tx", "header"]);
@@ -273,14 +290,21 @@ pub fn run(s: &Session) {
     let strat_names = td.clone();
     s.forall("test-data-mutants", s.pick(150, 1500) * n_td, move || {
         let names = strat_names.clone();
-        (any::<u16>(), pool::form_ops(6)).prop_map(move |(sel, ops)| Case { name: names[pvkit::pick_idx(sel, names.len())].clone(), ops })
+        (any::<u16>(), pool::form_ops(6)).prop_map(move |(sel, ops)| Case { name: names[pvkit::pick_idx(sel, names.len())].clone(), ops, focus: None })
+    }, check);
+    // header-focused mutants of every block artefact (all eras, epoch-boundary blocks included)
+    let blocks: Vec<String> = pool::pool(false).names(&["block"]);
+    let n_b = blocks.len() as u64;
+    s.forall("header-focused-mutants", s.pick(120, 1200) * n_b, move || {
+        let names = blocks.clone();
+        (any::<u16>(), pool::form_ops(4)).prop_map(move |(sel, ops)| Case { name: names[pvkit::pick_idx(sel, names.len())].clone(), ops, focus: Some("header".into()) })
     }, check);
     if thorough {
         let chunk: Vec<String> = names.iter().filter(|n| n.contains(".chunk#")).cloned().collect();
         let n = chunk.len() as u64;
         s.forall("chunk-block-mutants", 30 * n, move || {
             let names = chunk.clone();
-            (any::<u16>(), pool::form_ops(6)).prop_map(move |(sel, ops)| Case { name: names[pvkit::pick_idx(sel, names.len())].clone(), ops })
+            (any::<u16>(), pool::form_ops(6)).prop_map(move |(sel, ops)| Case { name: names[pvkit::pick_idx(sel, names.len())].clone(), ops, focus: None })
         }, check);
     }
     let acc = s.class_count("mutant-accepted");
